@@ -167,8 +167,11 @@ void operator delete[](void *p, std::size_t) noexcept { operator delete(p); }
 // ---------------------------------------------------------------------------------------------
 struct TraceHook {
     void *ctx = nullptr;
-    void (*on_alloc)(void *ctx, void *p, std::size_t sz) = nullptr;
-    void (*on_dealloc)(void *ctx, void *p, std::size_t sz) = nullptr;
+    // returns nullptr, or memory of the harness to be used INSTEAD of p when p is not usable memory for sz bytes
+    // (null, released, too small): the fault is on record, the process stays alive to report it
+    void *(*on_alloc)(void *ctx, void *p, std::size_t sz) = nullptr;
+    // returns the pointer to forward to the policy's dealloc, nullptr: do not forward (frame had been relocated)
+    void *(*on_dealloc)(void *ctx, void *p, std::size_t sz) = nullptr;
 };
 static TraceHook g_hook;
 static const bool g_trace = getenv("STORAGE_TRACE") != nullptr;
@@ -179,15 +182,38 @@ struct traced : S {
     void *alloc(std::size_t sz) {
         void *p = S::alloc(sz);
         if (g_trace) fprintf(stderr, "  alloc(%zu) -> slot %d\n", sz, arena::slot_of(p));
-        if (g_hook.ctx) g_hook.on_alloc(g_hook.ctx, p, sz);
+        if (g_hook.ctx) if (void *q = g_hook.on_alloc(g_hook.ctx, p, sz)) return q;
         return p;
     }
     static void dealloc(void *p, std::size_t sz) {
         if (g_trace) fprintf(stderr, "  dealloc(slot %d, %zu)\n", arena::slot_of(p), sz);
-        if (g_hook.ctx) g_hook.on_dealloc(g_hook.ctx, p, sz);
+        if (g_hook.ctx) { p = g_hook.on_dealloc(g_hook.ctx, p, sz); if (!p) return; }
         S::dealloc(p, sz);
     }
-    void set_buffer(void *p) { static_cast<S &>(*this) = p; }   // stack_storage::operator=(void *)
+};
+
+// recording wrapper around the BASE policy of promise_extra_storage<T, Base>: what size does the base's alloc
+// get, and does its dealloc get the same?
+struct RecHook {
+    void *ctx = nullptr;
+    void (*on_alloc)(void *ctx, void *p, std::size_t sz) = nullptr;
+    std::size_t (*on_dealloc)(void *ctx, void *p, std::size_t sz) = nullptr;   // returns the size to forward
+};
+static RecHook g_rec;
+template <typename B>
+struct rec : B {
+    using B::B;
+    void *alloc(std::size_t sz) {
+        void *p = B::alloc(sz);
+        if (g_rec.ctx) g_rec.on_alloc(g_rec.ctx, p, sz);
+        return p;
+    }
+    static void dealloc(void *p, std::size_t sz) {
+        // a size that differs from the one alloc got is recorded; the base is then given the right one, so that
+        // the process lives to report the difference
+        if (g_rec.ctx) sz = g_rec.on_dealloc(g_rec.ctx, p, sz);
+        B::dealloc(p, sz);
+    }
 };
 
 // ---------------------------------------------------------------------------------------------
@@ -222,8 +248,8 @@ struct Extra {
     Extra(const Extra &o) : magic(o.magic), serial(o.serial), touch(o.touch), pad(0) { ereg::ctor(this); }
     ~Extra() { ereg::dtor(this); magic = 0xDEADDEADu; }
 };
-static_assert(sizeof(Extra) == 16, "Trailer of Storage_extra.cfg");
-static_assert(sizeof(void *) == 8, "Trailer of Storage_mtsafe.cfg");
+static_assert(sizeof(Extra) == 16, "ExtraSz of Storage.tla");
+static_assert(sizeof(void *) == 8, "BaseTrailer of Storage.tla");
 
 // ---------------------------------------------------------------------------------------------
 // scripted coroutines
@@ -244,8 +270,12 @@ struct FrameRec {
     bool usable = true;
     std::uint32_t serial = 0;
     int cidx = 0;                     // index of the creation (FrameRef / future / promise) it came from
+    int o = 1;                        // storage object it was created on
+    unsigned char *orig = nullptr;    // what the policy returned, when the harness had to relocate the frame
+    std::size_t basz = 0, bdsz = 0;   // sizes the base policy's alloc / dealloc were called with
+    bool bdealloc = false;
 };
-struct FrameRef { FrameRec *r = nullptr; int cls = 0; int thread = 0; int idx = 0; };
+struct FrameRef { FrameRec *r = nullptr; int cls = 0; int thread = 0; int idx = 0; int o = 1; };
 
 inline unsigned char pat(int id, std::size_t i) { return (unsigned char) (id * 41 + i * 7 + 3); }
 
@@ -369,7 +399,9 @@ static void calibrate() {
             FF[fam][c] = calib_storage::last;
         }
         std::size_t *f = FF[fam];
-        if (!(f[1] >= N1 && f[1] + 100 <= f[2] && f[2] + 100 <= f[3] && f[3] + 100 <= arena::SLOTSZ)) {
+        // classes 100 bytes and (a std::vector doubles when it grows) a factor 2 apart, multiples of the buffer's item
+        if (!(f[1] >= N1 && f[1] + 100 <= f[2] && f[2] + 100 <= f[3] && f[3] + 100 <= arena::SLOTSZ &&
+              f[2] >= 2 * (f[1] + 32) && f[3] >= 2 * (f[2] + 32) && f[1] % 8 == 0 && f[2] % 8 == 0 && f[3] % 8 == 0)) {
             fprintf(stderr, "frame sizes %zu %zu %zu of family %d cannot be classified\n", f[1], f[2], f[3], fam);
             exit(3);
         }
@@ -379,17 +411,30 @@ static void calibrate() {
 // ---------------------------------------------------------------------------------------------
 // policies
 // ---------------------------------------------------------------------------------------------
-enum class Pol { def, reusable, mtsafe, stack, placement, buffer, extra };
+enum class Pol { def, reusable, mtsafe, stack, placement, buffer };
 using Buf = std::vector<std::uint64_t>;
 
-template <Pol P> struct PT;
-template <> struct PT<Pol::def> { using S = cocls::default_storage; static constexpr std::size_t trailer = 0; };
-template <> struct PT<Pol::reusable> { using S = cocls::reusable_storage; static constexpr std::size_t trailer = 0; };
-template <> struct PT<Pol::mtsafe> { using S = cocls::reusable_storage_mtsafe; static constexpr std::size_t trailer = sizeof(void *); };
-template <> struct PT<Pol::stack> { using S = cocls::stack_storage; static constexpr std::size_t trailer = 1; };
-template <> struct PT<Pol::placement> { using S = cocls::placement_alloc; static constexpr std::size_t trailer = 0; };
-template <> struct PT<Pol::buffer> { using S = cocls::reusable_buffer_storage<Buf>; static constexpr std::size_t trailer = 0; };
-template <> struct PT<Pol::extra> { using S = cocls::promise_extra_storage<Extra, cocls::default_storage>; static constexpr std::size_t trailer = sizeof(Extra); };
+// promise_extra_storage<T, Base> default-constructs its base: the policies that need a constructor argument are
+// given one by a derived class of the harness (what a user of the library would write)
+struct adapt {
+    static inline Buf *buf = nullptr;
+    static inline void *place = nullptr;
+    static inline std::size_t *state = nullptr;
+};
+struct buffer_base : cocls::reusable_buffer_storage<Buf> { buffer_base() : cocls::reusable_buffer_storage<Buf>(*adapt::buf) {} };
+struct placement_base : cocls::placement_alloc { placement_base() : cocls::placement_alloc(adapt::place) {} };
+struct stack_base : cocls::stack_storage { stack_base() : cocls::stack_storage(*adapt::state) {} };
+
+template <Pol P> struct PB;    // L: the library's policy; X: default constructible, as base of the attached-object layer
+template <> struct PB<Pol::def> { using L = cocls::default_storage; using X = L; static constexpr std::size_t trailer = 0; };
+template <> struct PB<Pol::reusable> { using L = cocls::reusable_storage; using X = L; static constexpr std::size_t trailer = 0; };
+template <> struct PB<Pol::mtsafe> { using L = cocls::reusable_storage_mtsafe; using X = L; static constexpr std::size_t trailer = sizeof(void *); };
+template <> struct PB<Pol::stack> { using L = cocls::stack_storage; using X = stack_base; static constexpr std::size_t trailer = 1; };
+template <> struct PB<Pol::placement> { using L = cocls::placement_alloc; using X = placement_base; static constexpr std::size_t trailer = 0; };
+template <> struct PB<Pol::buffer> { using L = cocls::reusable_buffer_storage<Buf>; using X = buffer_base; static constexpr std::size_t trailer = 0; };
+
+template <Pol P, bool EX> struct PT { using S = typename PB<P>::L; };
+template <Pol P> struct PT<P, true> { using S = cocls::promise_extra_storage<Extra, rec<typename PB<P>::X>>; };
 
 // protected bookkeeping through derived probes
 struct RProbe : cocls::reusable_storage {
@@ -403,21 +448,30 @@ struct SProbe : cocls::stack_storage {
     static auto asize_mp() { return &SProbe::_alloc_size; }
     static auto aptr_mp() { return &SProbe::_alloc_ptr; }
 };
-struct PProbe : cocls::placement_alloc {
-    static auto p_mp() { return &PProbe::_p; }
-};
 
 struct Cmd { enum K { none, create, complete, quit } k = none; int c = 0; int f = 0; };
 
-template <Pol P>
-struct World {
-    using S = typename PT<P>::S;
-    using A = traced<S>;
-    static constexpr std::size_t trailer = PT<P>::trailer;
+alignas(64) static unsigned char g_emergency[16][arena::SLOTSZ];    // where frames go whose memory is unusable
 
-    std::unique_ptr<A> storage;                 // all policies but stack
+template <Pol P, bool EX>
+struct World {
+    using S = typename PT<P, EX>::S;
+    using A = traced<S>;
+    static constexpr std::size_t extra_sz = EX ? sizeof(Extra) : 0;
+    static constexpr std::size_t trailer = extra_sz + PB<P>::trailer;     // everything behind the frame
+    static constexpr bool movable = P == Pol::reusable;
+    static constexpr bool copyable = !EX && (P == Pol::placement || P == Pol::buffer || P == Pol::stack);
+
+    std::unique_ptr<A> stor[2];                 // the storage objects (the second one: reusable_storage only)
+    std::string ost[2] = {"live", "none"};
+    unsigned char *invptr[2] = {nullptr, nullptr};   // extra: value `inventory` had when it was set / moved in ...
+    int invid[2] = {0, 0};                           // ... and the frame it designated then
+    std::unique_ptr<A> stor_copy;               // placement / buffer: a copy of the storage object, used alternately
+    bool use_copy = false;
     std::deque<A> stack_storages;               // stack: one storage object per call (as scheduler.h does)
     std::size_t state = 0;                      // stack: the shared size_t
+    unsigned char *cur_abuf = nullptr;          // stack: buffer of the creation in progress
+    std::size_t cur_asize = 0;
     unsigned char *place = nullptr;             // placement: the caller's buffer
     std::size_t place_size = 0;
     std::unique_ptr<Buf> buf;                   // buffer: the caller's vector
@@ -452,42 +506,64 @@ struct World {
     }
     static std::size_t real_size(long a) { return a <= 0 ? 0 : F[a / 100] + (std::size_t) (a % 100); }
     static std::size_t items_of(std::size_t bytes) { return (bytes + sizeof(Buf::value_type) - 1) / sizeof(Buf::value_type); }
-    static long abs_items(std::size_t items) {
-        if (items == 0) return 0;
-        for (int c = 1; c <= 3; c++) if (items == items_of(F[c])) return 100 * c;
-        return -(long) items;
-    }
+    static constexpr std::size_t item = sizeof(Buf::value_type);
 
     // ---- storage construction ----
     std::unique_ptr<A> make_storage() {
-        if constexpr (P == Pol::placement) return std::make_unique<A>(static_cast<void *>(place));
-        else if constexpr (P == Pol::buffer) return std::make_unique<A>(*buf);
-        else if constexpr (P == Pol::extra) {
+        alloc_pause np;
+        if constexpr (P == Pol::stack) return nullptr;
+        else if constexpr (EX) {
             World *w = this;
             return std::make_unique<A>([w] { return Extra(w->next_serial++); });
-        } else if constexpr (P == Pol::stack) return nullptr;
+        }
+        else if constexpr (P == Pol::placement) return std::make_unique<A>(static_cast<void *>(place));
+        else if constexpr (P == Pol::buffer) return std::make_unique<A>(*buf);
         else return std::make_unique<A>();
+    }
+    void destroy_storage(std::unique_ptr<A> &u) {
+        // the destructor runs as library code (it releases the policy's block); the object itself belongs to the harness
+        if (A *s = u.release()) {
+            { lib_scope ls; s->~A(); }
+            ::operator delete(static_cast<void *>(s));
+        }
     }
 
     // ---- hooks ----
-    static void on_alloc(void *ctx, void *p, std::size_t sz) {
+    // is [p, p+n) memory the frame can physically be put in?
+    bool usable_memory(const unsigned char *p, std::size_t n) const {
+        if (!p) return false;
+        if (int slot = arena::slot_of(p)) return p == arena::base(slot) && arena::req[slot - 1] && n <= arena::req[slot - 1];
+        if (P == Pol::stack && cur_abuf && p >= cur_abuf && p + n <= cur_abuf + cur_asize) return true;
+        if (P == Pol::placement && p == place && n <= place_size) return true;
+        return false;
+    }
+    static void *on_alloc(void *ctx, void *p, std::size_t sz) {
         World &w = *static_cast<World *>(ctx);
         int t = w.mt && vsched::self() ? vsched::self()->id : 0;
-        if (!w.cur_ref[t]) { w.note("alloc-outside-creation"); return; }
+        if (!w.cur_ref[t]) { w.note("alloc-outside-creation"); return nullptr; }
         FrameRef &ref = *w.cur_ref[t];
-        if (w.nframes >= (int) w.frames.size()) { w.note("too many frames"); return; }
+        if (w.nframes >= (int) w.frames.size()) { w.note("too many frames"); return nullptr; }
         FrameRec &r = w.frames[w.nframes++];
         r.id = w.nframes;
         r.cls = ref.cls;
         r.creator = t;
+        r.o = ref.o;
         r.ptr = static_cast<unsigned char *>(p);
         r.sz = sz;
         r.live = true;
         r.cidx = ref.idx;
         ref.r = &r;
+        if (!EX) r.basz = sz;
         if (ref.cls >= 1 && ref.cls <= 3 && sz != F[ref.cls]) w.note("frame-size-differs-from-calibration:" + std::to_string(r.id));
+        if (!w.usable_memory(r.ptr, sz + trailer)) {
+            w.note(std::string(p ? "memory-unusable:" : "alloc-returned-null:") + std::to_string(r.id));
+            r.orig = r.ptr;
+            r.ptr = g_emergency[r.id - 1];
+            return r.ptr;
+        }
+        return nullptr;
     }
-    static void on_dealloc(void *ctx, void *p, std::size_t sz) {
+    static void *on_dealloc(void *ctx, void *p, std::size_t sz) {
         World &w = *static_cast<World *>(ctx);
         for (int i = w.nframes - 1; i >= 0; i--) {
             FrameRec &r = w.frames[i];
@@ -495,18 +571,43 @@ struct World {
                 if (r.sz != sz) w.note("dealloc-size:" + std::to_string(r.id));
                 r.live = false;
                 r.dead = true;
-                return;
+                if (!EX) { r.bdsz = sz; r.bdealloc = true; }
+                return r.orig ? nullptr : p;
             }
         }
         w.note("dealloc-unknown");
+        return p;
     }
+    // the base policy under the attached-object layer
+    static void on_base_alloc(void *ctx, void *p, std::size_t sz) {
+        World &w = *static_cast<World *>(ctx);
+        w.pending_base_ptr = static_cast<unsigned char *>(p);
+        w.pending_base_sz = sz;
+    }
+    static std::size_t on_base_dealloc(void *ctx, void *p, std::size_t sz) {
+        World &w = *static_cast<World *>(ctx);
+        for (int i = w.nframes - 1; i >= 0; i--) {
+            FrameRec &r = w.frames[i];
+            if (r.dead && !r.bdealloc && r.ptr == p) {
+                r.bdsz = sz;
+                r.bdealloc = true;
+                return r.basz;
+            }
+        }
+        w.note("base-dealloc-unknown");
+        return sz;
+    }
+    unsigned char *pending_base_ptr = nullptr;
+    std::size_t pending_base_sz = 0;
 
-    // ---- the two public operations ----
-    FrameRef &new_ref(int t, int c) {
+    // ---- the public operations ----
+    FrameRef &new_ref(int t, int c, int o) {
         FrameRef &ref = crefs[ncreate % crefs.size()];
-        ref = FrameRef{nullptr, c, t, ncreate % (int) crefs.size()};
+        ref = FrameRef{nullptr, c, t, ncreate % (int) crefs.size(), o};
         ncreate++;
         cur_ref[t] = &ref;
+        pending_base_ptr = nullptr;
+        pending_base_sz = 0;
         if (fam >= 2) {     // harness objects, not the storage's
             alloc_pause np;
             futs[ref.idx].reset(new cocls::future<int>());
@@ -515,17 +616,23 @@ struct World {
         return ref;
     }
 
-    void check_extra(FrameRef &ref) {
+    void check_extra(A &st, FrameRef &ref) {
         FrameRec *r = ref.r;
         if (!r) return;
-        if constexpr (P == Pol::extra) {
+        if constexpr (EX) {
+            // what the base policy was asked for
+            if (pending_base_ptr == (r->orig ? r->orig : r->ptr)) r->basz = pending_base_sz;
+            else note("base-alloc-not-seen:" + std::to_string(r->id));
+            if (r->orig) { r->usable = false; return; }
             // the coroutine object exists (families 0/1: it has not started yet): the attached object must be usable
-            Extra *e = storage->operator->();
+            Extra *e = st.operator->();
             r->serial = next_serial - 1;
             bool ok = reinterpret_cast<unsigned char *>(e) == r->ptr + r->sz && ereg::alive(e);
-            if (ok) ok = e->magic == Extra::MAGIC && e->serial == r->serial && (*(*storage)).touch == 0;
+            if (ok) ok = e->magic == Extra::MAGIC && e->serial == r->serial && (*st).touch == 0;
             if (ok) e->touch = 7;      // use it
             r->usable = ok;
+            invptr[ref.o - 1] = reinterpret_cast<unsigned char *>(st.inventory);
+            invid[ref.o - 1] = r->id;
         }
     }
 
@@ -536,7 +643,7 @@ struct World {
             auto co = make_body<A>(fam, c, st, ref);
             if (!ref.r) { note("alloc-hook-not-called"); return; }
             ref.r->ev_begin = ev0;
-            check_extra(ref);
+            check_extra(st, ref);
             auto sp = co.detach();
             std::coroutine_handle<> h = sp.pop();
             h.resume();                    // runs the body up to its gate: canaries written
@@ -544,23 +651,26 @@ struct World {
             make_cb<A>(fam, c, st, ref, *futs[ref.idx]);   // created, started, suspended on the future
             if (!ref.r) { note("alloc-hook-not-called"); return; }
             ref.r->ev_begin = ev0;
-            check_extra(ref);
+            check_extra(st, ref);
         }
     }
 
     // (the stack policy's creation is done in run(): its alloca buffer must live in run()'s frame)
-    void do_create(int t, int c) {
-        FrameRef &ref = new_ref(t, c);
+    void do_create(int t, int c, int o) {
+        FrameRef &ref = new_ref(t, c, o);
+        A *st = stor[o - 1].get();
+        // a copy of a storage object that only refers to memory (placement, buffer) is the same storage
+        if (use_copy && stor_copy && (ncreate & 1)) st = stor_copy.get();
         lib_scope ls;
-        create_on(*storage, ref, c);
+        create_on(*st, ref, c);
     }
 
     void do_complete(int, int f) {
         FrameRec &r = frames[f - 1];
-        if constexpr (P == Pol::extra) {
+        if constexpr (EX) {
             // the attached object stayed intact for the whole life of the frame
             auto *e = reinterpret_cast<Extra *>(r.ptr + r.sz);
-            if (!(ereg::alive(e) && e->magic == Extra::MAGIC && e->serial == r.serial && e->touch == 7)) note("extra-damaged:" + std::to_string(r.id));
+            if (!r.orig && !(ereg::alive(e) && e->magic == Extra::MAGIC && e->serial == r.serial && e->touch == 7)) note("extra-damaged:" + std::to_string(r.id));
         }
         {
             lib_scope ls;
@@ -574,11 +684,11 @@ struct World {
     }
 
     void do_teardown() {
-        // the destructors run as library code (they release the policy's block); the objects themselves
-        // belong to the harness
-        if (A *s = storage.release()) {
-            { lib_scope ls; s->~A(); }
-            ::operator delete(static_cast<void *>(s));
+        stor_copy.reset();
+        for (int o = 1; o >= 0; o--) {
+            destroy_storage(stor[o]);
+            if (ost[o] == "live") ost[o] = "dead";
+            invid[o] = 0;
         }
         if (buf) {
             { lib_scope ls; Buf().swap(*buf); }
@@ -587,33 +697,81 @@ struct World {
         torn = true;
     }
 
+    // ---- storage objects constructed, moved, destroyed (reusable_storage) ----
+    bool do_move(const Step &st) {
+        if constexpr (!movable) return false;
+        else {
+            if (st.name == "NewObj") {
+                stor[1] = make_storage();
+                ost[1] = "live";
+                invid[1] = 0;
+            } else if (st.name == "MoveCtor") {
+                A *n = static_cast<A *>(::operator new(sizeof(A)));        // the harness's memory
+                { lib_scope ls; new (n) A(std::move(*stor[0])); }
+                stor[1].reset(n);
+                ost[1] = "live";
+                moved_inv(0, 1);
+            } else if (st.name == "MoveAssign") {
+                int s = st.iarg(0) - 1, d = st.iarg(1) - 1;
+                A &src = *stor[s];
+                A &dst = *stor[d];
+                { lib_scope ls; dst = std::move(src); }
+                if (s != d) moved_inv(s, d);
+            } else if (st.name == "Drop") {
+                int o = st.iarg(0) - 1;
+                destroy_storage(stor[o]);
+                ost[o] = "dead";
+                invid[o] = 0;
+            } else return false;
+            return true;
+        }
+    }
+    void moved_inv(int s, int d) {
+        if constexpr (EX) {
+            // `inventory` travels with the object
+            if (invid[s] && reinterpret_cast<unsigned char *>(stor[d]->inventory) != invptr[s]) note("inventory-not-moved");
+            invid[d] = invid[s];
+            invptr[d] = invptr[s];
+        }
+    }
+
+    // ---- the owner of the buffer uses it while no coroutine is active (reusable_buffer_storage) ----
+    bool do_owner(const Step &st) {
+        if constexpr (P != Pol::buffer) return false;
+        else {
+            lib_scope ls;       // the vector's blocks come from the same heap
+            if (st.name == "OwnerResize") buf->resize(items_of(F[st.iarg(0)] + trailer));
+            else if (st.name == "OwnerShrink") buf->shrink_to_fit();
+            else if (st.name == "OwnerClear") { buf->clear(); buf->shrink_to_fit(); }
+            else if (st.name == "OwnerMoveOut") { Buf taken(std::move(*buf)); }
+            else if (st.name == "OwnerSwap") { Buf fresh(items_of(F[st.iarg(0)] + trailer)); buf->swap(fresh); }
+            else return false;
+            return true;
+        }
+    }
+
     // ---- projection ----
-    const unsigned char *policy_block() const {
-        if (torn) return nullptr;
-        if constexpr (P == Pol::reusable || P == Pol::mtsafe) return static_cast<const unsigned char *>((*storage).*RProbe::ptr_mp());
+    const unsigned char *policy_block(int o) const {
+        if (torn || ost[o] != "live") return nullptr;
+        if constexpr (P == Pol::reusable || P == Pol::mtsafe) return static_cast<const unsigned char *>((*stor[o]).*RProbe::ptr_mp());
         else if constexpr (P == Pol::buffer) return buf && buf->capacity() ? reinterpret_cast<const unsigned char *>(buf->data()) : nullptr;
         else return nullptr;
     }
-    long policy_cap() const {
+    long policy_cap(int o) const {
+        if (o == 1 && !movable) return 0;
         if constexpr (P == Pol::stack) return abs_size(state);
         else if constexpr (P == Pol::placement) return abs_size(place_size);
-        else if (torn) return 0;
+        else if (torn || ost[o] != "live") return 0;
         else if constexpr (P == Pol::reusable || P == Pol::mtsafe) {
-            std::size_t c = storage->capacity();
-            if (c != (*storage).*RProbe::cap_mp()) return -1;
+            std::size_t c = stor[o]->capacity();
+            if (c != (*stor[o]).*RProbe::cap_mp()) return -1;
             return abs_size(c);
-        } else if constexpr (P == Pol::buffer) return abs_items(buf->size());
+        } else if constexpr (P == Pol::buffer) return abs_size(buf->size() * item);
         else return 0;
     }
-    long block_abs(int slot) const {
-        if constexpr (P == Pol::buffer) {
-            if (!torn && buf && arena::base(slot) == reinterpret_cast<const unsigned char *>(buf->data())) {
-                // the vector's block: what the policy may use of it is size() items
-                if (arena::req[slot - 1] < buf->size() * sizeof(Buf::value_type)) return -1;
-                return abs_items(buf->size());
-            }
-        }
-        return abs_size(arena::req[slot - 1]);
+    long block_abs(int slot) const { return abs_size(arena::req[slot - 1]); }
+    bool is_buffer_block(const unsigned char *p) const {
+        return P == Pol::buffer && buf && buf->capacity() && p == reinterpret_cast<const unsigned char *>(buf->data());
     }
 
     std::string pend_of(int t) {
@@ -647,74 +805,88 @@ struct World {
         // frames
         J fl = J::list();
         J wl = J::list();            // where each frame lies (reduced projection)
-        int ninv = 0;
         for (int i = 0; i < nframes; i++) {
             FrameRec &r = frames[i];
             J f = J::map();
             long ct = 0, dt = 0;
-            if constexpr (P == Pol::extra) {
+            if constexpr (EX) {
                 long end = r.ev_end < 0 ? ereg::n : r.ev_end;
-                for (long k = r.ev_begin; k < end; k++) if (ereg::ev[k].addr == r.ptr + r.sz) (ereg::ev[k].ctor ? ct : dt)++;
-                if (!torn && reinterpret_cast<unsigned char *>(storage->inventory) == r.ptr + r.sz) ninv = r.id;
+                const unsigned char *at = (r.orig ? r.orig : r.ptr) + r.sz;
+                for (long k = r.ev_begin; k < end; k++) if (ereg::ev[k].addr == at) (ereg::ev[k].ctor ? ct : dt)++;
                 if (!r.usable) bad.push("extra-unusable-at-creation:" + std::to_string(r.id));
             }
             f.set("ct", ct);
             f.set("dt", dt);
             if (!r.live) {
-                f.set("c", 0); f.set("live", false); f.set("where", "gone"); f.set("slot", 0); f.set("blk", 0); f.set("tr", "gone");
+                f.set("c", 0); f.set("o", 0); f.set("live", false); f.set("where", "gone"); f.set("slot", 0); f.set("blk", 0);
+                f.set("tr", "gone"); f.set("eo", "gone"); f.set("asz", 0);
+                // the base policy's dealloc was called with the size its alloc was called with
+                f.set("dz", !r.bdealloc ? std::string("never") : r.bdsz == r.basz ? std::string("same")
+                            : "alloc:" + std::to_string(r.basz) + "/dealloc:" + std::to_string(r.bdsz));
                 fl.push(f);
                 wl.push("gone");
                 continue;
             }
             f.set("c", r.cls);
+            f.set("o", r.o);
             f.set("live", true);
-            std::size_t foot = r.sz + trailer;       // the frame plus what the policy keeps behind it
+            f.set("asz", abs_size(r.basz));
+            f.set("dz", "live");
+            std::size_t foot = r.sz + trailer;       // the frame plus everything the policy keeps behind it
             bool fits = false;
             int slot = arena::slot_of(r.ptr);
-            if (slot) {
-                f.set("where", "heap");
+            std::string where = "unknown";
+            if (r.orig) {
+                where = "relocated";
+                f.set("slot", 0);
+                f.set("blk", 0);
+            } else if (slot) {
+                where = "heap";
                 f.set("slot", slot);
-                f.set("blk", block_abs(slot));
                 std::size_t avail = arena::req[slot - 1];
-                if constexpr (P == Pol::buffer) if (buf && r.ptr == reinterpret_cast<unsigned char *>(buf->data())) avail = buf->size() * sizeof(Buf::value_type);
+                if (is_buffer_block(r.ptr)) avail = std::min(avail, buf->size() * item);    // what the vector holds
+                f.set("blk", abs_size(avail));
                 fits = r.ptr == arena::base(slot) && foot <= avail;
             } else if (P == Pol::stack && r.abuf && r.ptr >= r.abuf && r.ptr < r.abuf + std::max<std::size_t>(r.asize, 1)) {
-                f.set("where", "stack");
+                where = "stack";
                 f.set("slot", 0);
                 f.set("blk", abs_size(r.asize));
                 fits = r.ptr + foot <= r.abuf + r.asize;
             } else if (P == Pol::placement && r.ptr == place) {
-                f.set("where", "place");
+                where = "place";
                 f.set("slot", 0);
                 f.set("blk", abs_size(place_size));
                 fits = foot <= place_size;
             } else {
-                f.set("where", "unknown");
                 f.set("slot", 0);
                 f.set("blk", 0);
             }
-            wl.push(slot ? "heap" : P == Pol::stack ? "stack" : P == Pol::placement ? "place" : "unknown");
-            if (!fits) bad.push("memory-too-small:" + std::to_string(r.id));
-            // what lies behind the frame
-            std::string tr = "none";
+            f.set("where", where);
+            wl.push(where);
+            if (!fits && !r.orig) bad.push("memory-too-small:" + std::to_string(r.id));
+            // what lies behind the frame: the attached object, then what the base policy keeps
+            std::string tr = "none", eo = "none";
             if (fits) {
+                const unsigned char *bt = r.ptr + r.sz + extra_sz;
                 if constexpr (P == Pol::mtsafe) {
                     void *own;
-                    memcpy(&own, r.ptr + r.sz, sizeof(own));
-                    tr = own == static_cast<cocls::reusable_storage_mtsafe *>(storage.get()) ? "own" : "bad";
+                    memcpy(&own, bt, sizeof(own));
+                    tr = own == static_cast<cocls::reusable_storage_mtsafe *>(stor[0].get()) ? "own" : "bad";
                 } else if constexpr (P == Pol::stack) {
-                    tr = std::to_string((int) r.ptr[r.sz]);
-                } else if constexpr (P == Pol::extra) {
-                    auto *e = reinterpret_cast<Extra *>(r.ptr + r.sz);
-                    tr = ereg::alive(e) && e->magic == Extra::MAGIC ? "obj" : "noobj";
+                    tr = std::to_string((int) *bt);
                 }
-            } else tr = "unreadable";
+                if constexpr (EX) {
+                    auto *e = reinterpret_cast<Extra *>(r.ptr + r.sz);
+                    eo = ereg::alive(e) && e->magic == Extra::MAGIC ? "obj" : "noobj";
+                }
+            } else tr = eo = "unreadable";
             f.set("tr", tr);
+            f.set("eo", eo);
             fl.push(f);
             // canaries of every live frame, every step
             if (r.started) {
                 bool ok = r.buf >= r.ptr && r.buf + r.n <= r.ptr + r.sz;
-                if (ok && fits) for (std::size_t k = 0; k < r.n; k++) ok &= r.buf[k] == pat(r.id, k);
+                if (ok && (fits || r.orig)) for (std::size_t k = 0; k < r.n; k++) ok &= r.buf[k] == pat(r.id, k);
                 if (!ok) bad.push("canary:" + std::to_string(r.id));
             } else bad.push("not-started:" + std::to_string(r.id));
             if (r.guard) for (int k = 0; k < 64; k++) if (r.guard[k] != 0xE7) { bad.push("alloca-guard:" + std::to_string(r.id)); break; }
@@ -726,20 +898,36 @@ struct World {
             if (a.ptr < b.ptr + b.sz + trailer && b.ptr < a.ptr + a.sz + trailer)
                 bad.push("overlap:" + std::to_string(a.id) + "+" + std::to_string(b.id));
         }
-        if constexpr (P == Pol::extra) {
+        if constexpr (EX) {
             int live = 0;
             for (int i = 0; i < nframes; i++) if (frames[i].live) live++;
             if (ereg::nalive() != live) bad.push("extra-objects-alive:" + std::to_string(ereg::nalive()) + "/frames:" + std::to_string(live));
             if (ereg::bad_dtor) bad.push("extra-destroyed-without-being-alive");
         }
         m.set("fr", fl);
-        m.set("inv", ninv);
-        // bookkeeping of the policy
-        const unsigned char *pb = policy_block();
-        m.set("ptr", pb ? (arena::slot_of(pb) && pb == arena::base(arena::slot_of(pb)) ? arena::slot_of(pb) : -1) : 0);
-        m.set("cap", policy_cap());
+        // the storage objects and their bookkeeping
+        J ol = J::list();
+        for (int o = 0; o < 2; o++) {
+            J x = J::map();
+            x.set("st", ost[o]);
+            const unsigned char *pb = policy_block(o);
+            x.set("ptr", pb ? (arena::slot_of(pb) && pb == arena::base(arena::slot_of(pb)) ? arena::slot_of(pb) : -1) : 0);
+            x.set("cap", policy_cap(o));
+            long inv = 0;
+            bool fac = ost[o] == "live";
+            if constexpr (EX) {
+                A *cur = P == Pol::stack ? (stack_storages.empty() ? nullptr : &stack_storages.back()) : stor[o].get();
+                if (ost[o] == "live" && invid[o] && cur && !(P == Pol::stack && o == 1))
+                    inv = reinterpret_cast<unsigned char *>(cur->inventory) == invptr[o] ? invid[o] : -1;
+                if (ost[o] == "live" && P != Pol::stack) fac = static_cast<bool>(stor[o]->_factory);
+            }
+            x.set("inv", inv);
+            x.set("fac", fac);
+            ol.push(x);
+        }
+        m.set("objs", ol);
         bool busy = false;
-        if constexpr (P == Pol::mtsafe) if (!torn) busy = ((*storage).*MProbe::busy_mp()).verif_peek();
+        if constexpr (P == Pol::mtsafe) if (!torn) busy = ((*stor[0]).*MProbe::busy_mp()).verif_peek();
         m.set("busy", busy);
         m.set("news", arena::news);
         m.set("dels", arena::dels);
@@ -769,12 +957,12 @@ struct World {
             Cmd c = mailbox[t];
             mailbox[t] = Cmd{};
             if (c.k == Cmd::quit) return;
-            if (c.k == Cmd::create) do_create(t, c.c);
+            if (c.k == Cmd::create) do_create(t, c.c, 1);
             else if (c.k == Cmd::complete) do_complete(t, c.f);
         }
     }
 
-    static int tid_of(const std::string &s) { return s.size() >= 2 ? atoi(s.c_str() + 1) - 1 : 0; }
+    static int tid_of(const std::string &s) { return s.size() >= 2 && s[0] == 't' ? atoi(s.c_str() + 1) - 1 : 0; }
 
     // ---- scenario ----
     void run(const Scenario &sc, Reporter &rep) {
@@ -788,27 +976,32 @@ struct World {
         long init = sc.hdr.at("init").as_int(0);
         fam = (int) sc.hdr.at("fam").as_int(0);
         obs_alloc = sc.hdr.at("obs").as_str("full") == "alloc";
+        use_copy = copyable && sc.hdr.at("copy").as_bool(false);
         if (fam < 0 || fam >= NFAM || (mt && fam >= 2)) { rep.error(0, "bad shape family"); return; }
         F = FF[fam];
         if (fam >= 2) kill = "finish";
         warm_thread();
         int nthreads = mt ? 2 : 1;
-        if (mt && P != Pol::mtsafe) { rep.error(0, "two-thread mode is for reusable_storage_mtsafe"); return; }
+        if (mt && (P != Pol::mtsafe || EX)) { rep.error(0, "two-thread mode is for reusable_storage_mtsafe"); return; }
         // set-up (not part of the counted history)
-        if constexpr (P == Pol::stack) state = real_size(init);
+        if constexpr (P == Pol::stack) { state = real_size(init); adapt::state = &state; }
         if constexpr (P == Pol::placement) {
             place_size = real_size(init);
             place = static_cast<unsigned char *>(malloc(place_size ? place_size : 1));   // exact size: ASan guards its end
+            adapt::place = place;
         }
         if constexpr (P == Pol::buffer) {
             buf.reset(new Buf());
+            adapt::buf = buf.get();
             lib_scope ls;
-            if (init) buf->resize(items_of(real_size(init)));
+            if (init) buf->resize(items_of(real_size(init) + trailer));     // a buffer that just fits a frame of that class
         }
         arena::news = arena::dels = 0;
         arena::nevents = 0;
-        storage = make_storage();
+        stor[0] = make_storage();
+        if constexpr (copyable && P != Pol::stack) if (use_copy) { alloc_pause np; stor_copy.reset(new A(*stor[0])); }
         g_hook = TraceHook{this, &on_alloc, &on_dealloc};
+        g_rec = EX ? RecHook{this, &on_base_alloc, &on_base_dealloc} : RecHook{};
         arena::alloc_marks = mt && grain == "alloc";
         if (mt) {
             sched.log_enabled = false;
@@ -819,9 +1012,10 @@ struct World {
         for (std::size_t k = 0; k < sc.steps.size() && !stop; k++) {
             const Step &st = sc.steps[k];
             int t = tid_of(st.sarg(0));
-            if (st.name == "Create") {
+            if (st.name == "Create" || st.name == "CreateB") {
                 int c = st.iarg(1);
-                if (c < 1 || c > 3 || t < 0 || t >= nthreads) { rep.error(k, "bad arguments"); break; }
+                int o = st.name == "CreateB" ? 2 : 1;
+                if (c < 1 || c > 3 || t < 0 || t >= nthreads || (o == 2 && !movable)) { rep.error(k, "bad arguments"); break; }
                 if (mt) {
                     if (pend_of(t) != "idle") { rep.diverge(k, "thread is not idle: " + pend_of(t) + " got=" + project(nthreads).dump()); break; }
                     mailbox[t] = Cmd{Cmd::create, c, 0};
@@ -833,23 +1027,33 @@ struct World {
                     sched.step(t);
                 } else if constexpr (P == Pol::stack) {
                     // as scheduler.h:241-255 does: a storage object per call, buffer from alloca
-                    FrameRef &ref = new_ref(0, c);
-                    stack_storages.emplace_back(state);
+                    FrameRef &ref = new_ref(0, c, 1);
+                    {
+                        alloc_pause np;
+                        if constexpr (EX) { World *w = this; stack_storages.emplace_back([w] { return Extra(w->next_serial++); }); }
+                        else stack_storages.emplace_back(state);
+                    }
                     A &sst = stack_storages.back();
+                    cocls::stack_storage &base = sst;
                     unsigned char *guard = static_cast<unsigned char *>(alloca(64));
                     memset(guard, 0xE7, 64);
-                    std::size_t asz = sst;                                   // operator std::size_t
+                    std::size_t asz = base;                                  // operator std::size_t
                     unsigned char *ab = static_cast<unsigned char *>(alloca(asz));
                     memset(ab, 0x5A, asz);
-                    sst.set_buffer(ab);
+                    base = ab;                                               // stack_storage::operator=(void *)
+                    cur_abuf = ab;
+                    cur_asize = asz;
                     {
                         lib_scope ls;
-                        create_on(sst, ref, c);
+                        bool done = false;
+                        if constexpr (copyable) if (use_copy && (ncreate & 1)) { A cp(sst); create_on(cp, ref, c); done = true; }   // a copy refers to the same buffer
+                        if (!done) create_on(sst, ref, c);
                     }
                     if (ref.r) { ref.r->abuf = ab; ref.r->asize = asz; ref.r->guard = guard; }
                     if (asz != sst.*SProbe::asize_mp() || ab != sst.*SProbe::aptr_mp()) note("stack-storage-bookkeeping");
                 } else {
-                    do_create(0, c);
+                    if (!stor[o - 1]) { rep.diverge(k, "storage object does not exist got=" + project(nthreads).dump()); break; }
+                    do_create(0, c, o);
                 }
             } else if (st.name == "Complete") {
                 int f = st.iarg(1);
@@ -875,6 +1079,8 @@ struct World {
                     if (!sched.drain()) { rep.diverge(k, "threads do not finish"); break; }
                 }
                 do_teardown();
+            } else if (!mt && (do_move(st) || do_owner(st))) {
+                // done
             } else {
                 rep.error(k, "unknown action");
                 break;
@@ -905,13 +1111,27 @@ struct World {
         }
         if (!torn) do_teardown();
         g_hook = TraceHook{};
+        g_rec = RecHook{};
         if (!rep.failed()) {
             if (arena::used() != 0) rep.diverge(sc.steps.size() - 1, "heap blocks still allocated after the storage was destroyed: " + std::to_string(arena::used()));
             else if (arena::dblfree || arena::overrun || arena::badptr) rep.diverge(sc.steps.size() - 1, "heap misuse detected during clean-up");
-            else if (P == Pol::extra && (ereg::nalive() != 0 || ereg::bad_dtor)) rep.diverge(sc.steps.size() - 1, "attached objects alive after all frames are gone");
+            else if (EX && (ereg::nalive() != 0 || ereg::bad_dtor)) rep.diverge(sc.steps.size() - 1, "attached objects alive after all frames are gone");
         }
     }
 };
+
+template <bool EX>
+static void run_world(const std::string &p, const Scenario &sc, Reporter &rep) {
+    if (p == "reusable") { World<Pol::reusable, EX> w; w.run(sc, rep); }
+    else if (p == "mtsafe") { World<Pol::mtsafe, EX> w; w.run(sc, rep); }
+    else if (p == "stack") { World<Pol::stack, EX> w; w.run(sc, rep); }
+#ifndef STORAGE_REPLAY_REUSING_ONLY      // reduced build for the allocation check of C20 (compiles faster)
+    else if (p == "default") { World<Pol::def, EX> w; w.run(sc, rep); }
+    else if (p == "placement") { World<Pol::placement, EX> w; w.run(sc, rep); }
+    else if (p == "buffer") { World<Pol::buffer, EX> w; w.run(sc, rep); }
+#endif
+    else rep.error(0, "unknown policy");
+}
 
 int main(int argc, char **argv) {
     if (argc > 1 && !strcmp(argv[1], "--probe-grow")) {
@@ -938,15 +1158,10 @@ int main(int argc, char **argv) {
     }
     return replay_main(std::cin, [](const Scenario &sc, Reporter &rep) {
         std::string p = sc.hdr.at("policy").as_str();
-        if (p == "reusable") { World<Pol::reusable> w; w.run(sc, rep); }
-        else if (p == "mtsafe") { World<Pol::mtsafe> w; w.run(sc, rep); }
-        else if (p == "stack") { World<Pol::stack> w; w.run(sc, rep); }
-#ifndef STORAGE_REPLAY_REUSING_ONLY      // reduced build for the allocation check of C20 (compiles faster)
-        else if (p == "default") { World<Pol::def> w; w.run(sc, rep); }
-        else if (p == "placement") { World<Pol::placement> w; w.run(sc, rep); }
-        else if (p == "buffer") { World<Pol::buffer> w; w.run(sc, rep); }
-        else if (p == "extra") { World<Pol::extra> w; w.run(sc, rep); }
+#ifndef STORAGE_REPLAY_REUSING_ONLY
+        if (sc.hdr.at("ex").as_bool(false)) run_world<true>(p, sc, rep);
+        else
 #endif
-        else rep.error(0, "unknown policy");
+        run_world<false>(p, sc, rep);
     });
 }
